@@ -27,19 +27,46 @@ callback that succeeds contributes no exception) and `elem.Set` AFTER
 fixes/C14-element-set-stale-containers.patch (798ebe2: the container is read
 when the element is set, not when the lvalue was dereferenced).
 
+Round 2: values are the values of the C14 model (`C14.Val`: strings, nested
+lists, maps); an element lvalue carries a whole index path and is assigned
+with `C14.setElem` (= `elem.Set`: `elemAssocers` + `vals.Assoc` inside-out,
+list/string indices by the C13 model); `MakeElement`'s early walk of the index
+chain (`C14.assocers`) is part of `derefLValue`, so a bad index in ANY lvalue
+is reported before the first Set; one lvalue of an assignment may be a rest
+lvalue (`@x`); `if` and `while` call their body closures like `for` does.
+
 Everything is an event writer: results carry the events they emitted, the
 log is their concatenation (a monotone history by construction).
 -/
 import ElvModel.Go.Basic
+import ElvModel.C13.Model
+import ElvModel.C14.Model
 namespace C21
+open Go
 
 abbrev VarId := Nat
 
-/-- Values the generated programs use: a decimal string or a list of them. -/
-inductive Val where
-  | num (n : Nat)
-  | list (xs : List Nat)
-  deriving DecidableEq, Repr, Inhabited
+/-- Elvish values: those of the C14 model (strings, `$nil`, typed ints, nested
+lists, maps as association lists). -/
+abbrev Val := C14.Val
+/-- An index / map key (always a string in source programs). -/
+abbrev Key := C14.Key
+
+/-- Decimal digits of n, most significant first. -/
+def digitsAux : Nat → Nat → Bytes → Bytes
+  | 0, _, acc => acc
+  | f + 1, n, acc =>
+    let acc' := UInt8.ofNat (48 + n % 10) :: acc
+    if n / 10 = 0 then acc' else digitsAux f (n / 10) acc'
+
+def natBytes (n : Nat) : Bytes := digitsAux (n + 1) n []
+
+/-- The string `n` in decimal (what `5` in a program is). -/
+def numV (n : Nat) : Val := C14.Val.str (natBytes n)
+/-- A list of decimal strings. -/
+def numsV (xs : List Nat) : Val := C14.Val.list (xs.map numV)
+/-- The index `[n]`. -/
+def numK (n : Nat) : Key := C14.Key.str (natBytes n)
 
 /-- Reason of an exception, as far as the property distinguishes them. -/
 inductive Cause where
@@ -50,7 +77,7 @@ inductive Cause where
   | setFail (x : VarId)      -- error returned by Var.Set of variable x
   | restoreFail (x : VarId)  -- "restore variable: %w"
   | unsetFail (x : VarId)    -- "unset variable: %w"
-  | elemErr                  -- vals.Assoc failed (index out of range, not a list)
+  | elemErr                  -- vals.Index / vals.Assoc failed (bad index, no such key, not indexable …)
   | arity                    -- errs.ArityMismatch
   | fuel                     -- model only: nesting deeper than the fuel
   | panic                    -- model only: Go index out of range (proved unreachable)
@@ -77,7 +104,6 @@ inductive Event where
   | set (x : VarId) (v : Val) (ok : Bool) -- Var.Set called on a logged variable
   | unset (x : VarId) (ok : Bool)         -- UnsettableVar.Unset called on a logged variable
   | caught (g k : Nat) (o : Outcome)      -- what a `try` saw
-  deriving DecidableEq, Repr
 
 /-- Static configuration: variable kinds and the failure schedule (`fails x i`
 = the i-th Set/Unset call on x fails).  Theorems quantify over all of it. -/
@@ -126,38 +152,41 @@ def varUnset (c : Cfg) (x : VarId) (s : St) : SR :=
 
 /-! ### lvalues -/
 
+/-- `x` or `x[k]…[kₙ]` (at least one index). -/
 inductive LV where
   | var (x : VarId)
-  | elem (x : VarId) (i : Nat)
-  deriving DecidableEq, Repr
+  | elem (x : VarId) (k : Key) (ks : List Key)
 
 def LV.head : LV → VarId
   | .var x => x
-  | .elem x _ => x
+  | .elem x _ _ => x
 
-/-- `derefLValue`: the variable, or an element variable (`vars.MakeElement`).
-Since `fix: eval: element assignment uses the variable's current value`
-(798ebe2) the element variable holds only the head variable and the index;
-`elem.Set` reads the container when it is called (`elemAssocers`).  With a
-single index `MakeElement` itself cannot fail. -/
-inductive Ref where
-  | var (x : VarId)
-  | elem (x : VarId) (i : Nat)
+/-- `variable.Get()` as `elemAssocers` sees it: an unset unsettable variable
+(harness kind U, environment variable) reads as the empty string. -/
+def curVal : Option Val → Val
+  | some v => v
+  | none => .str []
 
-def Ref.head : Ref → VarId
-  | .var x => x
-  | .elem x _ => x
+/-- `derefLValue`: the variable itself, or `vars.MakeElement(variable, indices)`.
+Since 798ebe2 the element variable holds only the head variable and the
+indices (so the lvalue itself stands for it), but `MakeElement` still walks the
+index chain once (`elemAssocers`) to report a bad index early.  `none` = nil error. -/
+def deref (s : St) : LV → Option Cause
+  | .var _ => none
+  | .elem x k ks =>
+    match C14.assocers (curVal (s.store x)) (k :: ks) with
+    | .ok _ => none
+    | .exc _ => some .elemErr
+    | .panic _ => some .panic
 
-def deref (_ : St) : LV → Ref
-  | .var x => .var x
-  | .elem x i => .elem x i
-
-/-- `vals.Assoc(container, i, v)` for the values in play: a list with a valid
-index and a string element.  (Anything else is an error or excluded by the
-driver's typing of programs.) -/
-def assoc : Option Val → Nat → Val → Option Val
-  | some (.list xs), i, .num n => if i < xs.length then some (.list (xs.set i n)) else none
-  | _, _, _ => none
+/-- The first loop of `doAssign`: every lvalue is dereferenced, left to right,
+before anything is set; the first error is returned. -/
+def derefAll (s : St) : List LV → Option Cause
+  | [] => none
+  | l :: rest =>
+    match deref s l with
+    | some e => some e
+    | none => derefAll s rest
 
 /-- What a function does later: undo an assignment, or call a callback. -/
 inductive Item (β : Type) where
@@ -175,16 +204,17 @@ def save {β : Type} (s : St) (x : VarId) : Item β :=
 
 /-- `variable.Set(value)` through a (possibly element) variable; the error is
 wrapped by `fm.errorp`. -/
-def refSet (c : Cfg) (r : Ref) (v : Val) (s : St) : R :=
+def refSet (c : Cfg) (r : LV) (v : Val) (s : St) : R :=
   match r with
   | .var x =>
     let q := varSet c x v s
     ⟨q.st, q.ev, if q.ok then none else some (.setFail x)⟩
-  | .elem x i =>
-    -- `elem.Set`: `assocers[0] = ev.variable.Get()` NOW, then `vals.Assoc`, then `variable.Set`
-    match assoc (s.store x) i v with
-    | none => ⟨s, [], some .elemErr⟩
-    | some v' =>
+  | .elem x k ks =>
+    -- `elem.Set`: containers from `ev.variable.Get()` NOW, `vals.Assoc` inside-out, then `variable.Set`
+    match C14.setElem (curVal (s.store x)) (k :: ks) v with
+    | .exc _ => ⟨s, [], some .elemErr⟩
+    | .panic _ => ⟨s, [], some .panic⟩
+    | .ok v' =>
       let q := varSet c x v' s
       ⟨q.st, q.ev, if q.ok then none else some (.setFail x)⟩
 
@@ -196,8 +226,9 @@ structure AR (β : Type) where
   out : Outcome
 
 /-- The loop of `doAssign` over the lvalues, `set(fm, lv, variable, value, rc)`:
-save, Set, and only if Set succeeded hand the restore function to `rc`. -/
-def assignLoop {β : Type} (c : Cfg) (collect : Bool) : List (Ref × Val) → St → AR β
+save, Set, and only if Set succeeded hand the restore function to `rc` —
+ONE restore per lvalue. -/
+def assignLoop {β : Type} (c : Cfg) (collect : Bool) : List (LV × Val) → St → AR β
   | [], s => ⟨s, [], [], none⟩
   | (r, v) :: rest, s =>
     let it : Item β := save s r.head
@@ -208,12 +239,35 @@ def assignLoop {β : Type} (c : Cfg) (collect : Bool) : List (Ref × Val) → St
       let r2 := assignLoop c collect rest r1.st
       ⟨r2.st, r1.ev ++ r2.ev, (if collect then [it] else []) ++ r2.items, r2.out⟩
 
-/-- `doAssign` (no rest variable): all lvalues are dereferenced first, then the
-arity is checked, then the sets happen left to right. -/
-def doAssign {β : Type} (c : Cfg) (collect : Bool) (lvs : List LV) (vs : List Val) (s : St) : AR β :=
-  let refs := lvs.map (deref s)
-  if refs.length ≠ vs.length then ⟨s, [], [], some .arity⟩
-  else assignLoop c collect (refs.zip vs) s
+/-- One `lhs… = rhs…`: the lvalues, the position of the rest lvalue
+(`lvaluesGroup.rest`, `none` = -1) and the (literal) right-hand-side values. -/
+structure Group where
+  lvs : List LV
+  rest : Option Nat
+  vs : List Val
+
+/-- Which value each of the `nv` variables gets (`none` = `errs.ArityMismatch`).
+Without a rest variable the counts must agree; with one at position r it gets
+`vals.MakeList(values[r : r+restOff+1]…)`, `restOff = len(values) - len(variables)`. -/
+def restValues (nv : Nat) (rest : Option Nat) (vs : List Val) : Option (List Val) :=
+  match rest with
+  | none => if nv ≠ vs.length then none else some vs
+  | some r =>
+    if vs.length + 1 < nv then none
+    else
+      let m := vs.length + 1 - nv
+      some (vs.take r ++ [C14.Val.list ((vs.drop r).take m)] ++ vs.drop (r + m))
+
+/-- `doAssign`: all lvalues are dereferenced first, then (the right-hand side
+is evaluated — literals here —) the arity is checked, then the sets happen
+left to right. -/
+def doAssign {β : Type} (c : Cfg) (collect : Bool) (g : Group) (s : St) : AR β :=
+  match derefAll s g.lvs with
+  | some e => ⟨s, [], [], some e⟩
+  | none =>
+    match restValues g.lvs.length g.rest g.vs with
+    | none => ⟨s, [], [], some .arity⟩
+    | some vs => assignLoop c collect (g.lvs.zip vs) s
 
 /-! ### running what was collected -/
 
@@ -270,10 +324,10 @@ def closureCall {β : Type} (c : Cfg) (runCb : β → St → R) (isFn : Bool)
   ⟨d.st, b.ev ++ d.ev, keepFirst exc d.out⟩
 
 /-- The assignments of `with`, in order; stops at the first failing one. -/
-def assignGroups {β : Type} (c : Cfg) : List (List LV × List Val) → St → AR β
+def assignGroups {β : Type} (c : Cfg) : List Group → St → AR β
   | [], s => ⟨s, [], [], none⟩
-  | (lvs, vs) :: rest, s =>
-    let a : AR β := doAssign c true lvs vs s
+  | g :: rest, s =>
+    let a : AR β := doAssign c true g s
     match a.out with
     | some _ => a
     | none =>
@@ -281,7 +335,7 @@ def assignGroups {β : Type} (c : Cfg) : List (List LV × List Val) → St → A
       ⟨a2.st, a.ev ++ a2.ev, a.items ++ a2.items, a2.out⟩
 
 /-- `withOp.exec`: the restore functions run in a Go `defer`, whatever happened. -/
-def withExec (c : Cfg) (groups : List (List LV × List Val)) (body : St → R) (s : St) : R :=
+def withExec (c : Cfg) (groups : List Group) (body : St → R) (s : St) : R :=
   let a : AR Empty := assignGroups c groups s
   match a.out with
   | some e =>
@@ -297,8 +351,8 @@ def withExec (c : Cfg) (groups : List (List LV × List Val)) (body : St → R) (
 inductive Stmt where
   | mark (k : Nat)
   | peek (k : Nat) (x : VarId)
-  | asg (k : Nat) (tmp : Bool) (lvs : List LV) (vs : List Val)
-  | withS (k : Nat) (groups : List (List LV × List Val)) (body : List Stmt)
+  | asg (k : Nat) (tmp : Bool) (grp : Group)
+  | withS (k : Nat) (groups : List Group) (body : List Stmt)
   | deferS (k : Nat) (body : List Stmt)
   | fail (k n : Nat)
   | brk (k : Nat)
@@ -307,13 +361,18 @@ inductive Stmt where
   | call (k : Nat) (isFn : Bool) (body : List Stmt)
   | forS (k n : Nat) (body : List Stmt)
   | tryS (k : Nat) (body : List Stmt)
+  /-- `if`: sel 0 `if $true { body }`, 1 `if $false { } else { body }`,
+  2 `if $false { } elif $true { body } else { }`, anything else `if $false { body }` (body not run) -/
+  | ifS (k sel : Nat) (body : List Stmt)
+  /-- `while` whose condition holds n times -/
+  | whileS (k n : Nat) (body : List Stmt)
 
 /-- A lambda: its static id and statements. -/
 structure Block where
   k : Nat
   body : List Stmt
 
-/-- `forOp.exec`: continue / break are consumed, anything else ends the loop. -/
+/-- `forOp.exec` / `whileOp.exec`: continue / break are consumed, anything else ends the loop. -/
 def forLoop (call : St → R) : Nat → St → R
   | 0, s => ⟨s, [], none⟩
   | n + 1, s =>
@@ -331,8 +390,8 @@ def BodyR.ofR {β : Type} (r : R) (pre : List Event) : BodyR β := ⟨r.st, pre 
 def execStmt (c : Cfg) (call : Block → Bool → St → R) (g : Nat) : Stmt → St → BodyR Block
   | .mark k, s => ⟨s, [.at g k], [], none⟩
   | .peek k x, s => ⟨s, [.at g k, .val x (s.store x)], [], none⟩
-  | .asg k tmp lvs vs, s =>
-    let a : AR Block := doAssign c tmp lvs vs s
+  | .asg k tmp grp, s =>
+    let a : AR Block := doAssign c tmp grp s
     ⟨a.st, .at g k :: a.ev, a.items, a.out⟩
   | .withS k groups body, s =>
     .ofR (withExec c groups (call ⟨k, body⟩ false) s) [.at g k]
@@ -346,6 +405,10 @@ def execStmt (c : Cfg) (call : Block → Bool → St → R) (g : Nat) : Stmt →
   | .tryS k body, s =>
     let r := call ⟨k, body⟩ false s
     ⟨r.st, .at g k :: r.ev ++ [.caught g k r.out], [], none⟩
+  | .ifS k sel body, s =>
+    -- `ifOp.exec`: the first branch whose condition holds (or `else`) is called; its exception is the result
+    if sel ≤ 2 then .ofR (call ⟨k, body⟩ false s) [.at g k] else ⟨s, [.at g k], [], none⟩
+  | .whileS k n body, s => .ofR (forLoop (call ⟨k, body⟩ false) n s) [.at g k]
 
 /-- A statement sequence; an exception ends it, what was deferred so far stays. -/
 def execStmts (c : Cfg) (call : Block → Bool → St → R) (g : Nat) : List Stmt → St → BodyR Block
@@ -363,6 +426,28 @@ def blockBody (c : Cfg) (call : Block → Bool → St → R) (b : Block) (s : St
   let g := s.next
   let r := execStmts c call g b.body { s with next := g + 1 }
   ⟨r.st, .enter g b.k :: r.ev, r.items, r.out⟩
+
+mutual
+/-- Nesting depth of lambdas below a statement. -/
+def Stmt.depth : Stmt → Nat
+  | .withS _ _ b => depthL b + 1
+  | .deferS _ b => depthL b + 1
+  | .call _ _ b => depthL b + 1
+  | .forS _ _ b => depthL b + 1
+  | .tryS _ b => depthL b + 1
+  | .ifS _ _ b => depthL b + 1
+  | .whileS _ _ b => depthL b + 1
+  | .mark _ => 0
+  | .peek _ _ => 0
+  | .asg _ _ _ => 0
+  | .fail _ _ => 0
+  | .brk _ => 0
+  | .cont _ => 0
+  | .ret _ => 0
+def depthL : List Stmt → Nat
+  | [] => 0
+  | s :: rest => max s.depth (depthL rest)
+end
 
 /-- Calling a lambda (fuel = remaining nesting depth). -/
 def callBlock (c : Cfg) : Nat → Block → Bool → St → R
